@@ -37,6 +37,15 @@ def main():
         r = res.get(d.name, {}).get("results", {})
         verdicts = []
         for pid, rr in r.items():
+            if meta.get("harmless"):
+                if not rr["caught"]:
+                    v = f"{pid}: passes (exit 0)"
+                elif rr["with_failing_input"]:
+                    v = f"{pid}: FALSE ALARM with an input"
+                else:
+                    v = f"{pid}: alarm, no-failing-input-found (a tie broke)"
+                verdicts.append(v)
+                continue
             if rr["caught"] and rr["with_failing_input"]:
                 v = f"{pid}: caught, concrete input"
             elif rr["caught"]:
